@@ -146,6 +146,60 @@ def suite_call(ctx):
     return s
 
 
+def suite_blocks(ctx):
+    """the outcome is delivered the same way inside `with client.payload_override(...)` / `with client.suppress_positive_response(...)` blocks (real with-statements):
+    an exception raised for a reply leaves the block and reaches the caller, a flagged response is returned - a context manager never swallows or changes either"""
+    from .. import clientlib as cl
+    from udsoncan.exceptions import NegativeResponseException, InvalidResponseException, UnexpectedResponseException, TimeoutException
+    s = Suite('blocks')
+    replies = {'negative': (b'\x7f\x11\x22', NegativeResponseException), 'invalid': (b'\x7f\x11', InvalidResponseException),
+               'unexpected': (b'\x51\x02', UnexpectedResponseException), 'silence': (None, TimeoutException)}
+    blocks = {'payload_override(identity)': lambda c: c.payload_override(lambda p: p), 'payload_override(literal 11 01)': lambda c: c.payload_override(b'\x11\x01'),
+              'suppress_positive_response(wait_nrc=True)': lambda c: c.suppress_positive_response(wait_nrc=True), 'no block': None}
+    for bname, mk in blocks.items():
+        for rname, (frame, exc_type) in replies.items():
+            for sw in ((True, True, True), (False, False, False)):
+                if bname.startswith('suppress') and rname in ('silence', 'unexpected'):
+                    continue            # silence and positive replies inside a waiting suppress block give None by definition (C09)
+                client, conn = cl.make_client(cl.Cfg(rt=50, p2=20, p2s=20, exc=sw))
+                conn.responder = lambda p, frame=frame: [(1, frame)] if frame is not None else []
+                raised, returned, user = None, None, None
+                try:
+                    if mk is None:
+                        returned = client.ecu_reset(1)
+                    else:
+                        with mk(client):
+                            returned = client.ecu_reset(1)
+                except Exception as e:  # noqa
+                    raised = e
+                s.evaluations += 1
+                s.distinct.add('%s|%s|%s' % (bname, rname, sw))
+                rec = {'site': 'ecu_reset', 'input': 'ecu_reset(1) inside %s; reply: %s; switches %s' % (bname, rname, sw)}
+                want_exc = rname == 'silence' or sw[0]
+                if want_exc:
+                    if not isinstance(raised, exc_type):
+                        s.fail(dict(rec, observed='raised %s, returned %r' % (type(raised).__name__ if raised else None, returned), required='%s reaches the caller' % exc_type.__name__))
+                else:
+                    flag_ok = returned is not None and ((rname == 'negative' and returned.positive is False) or (rname == 'invalid' and returned.valid is False)
+                                                        or (rname == 'unexpected' and returned.unexpected is True))
+                    if raised is not None or not flag_ok:
+                        s.fail(dict(rec, observed='raised %s, returned %r' % (type(raised).__name__ if raised else None, returned), required='the flagged response is returned'))
+            # an exception of the caller's own code inside the block leaves it unchanged
+            if mk is not None:
+                client, conn = cl.make_client(cl.Cfg(rt=50, p2=20, p2s=20))
+                got = None
+                try:
+                    with mk(client):
+                        raise KeyError('caller code')
+                except Exception as e:  # noqa
+                    got = e
+                s.evaluations += 1
+                if not isinstance(got, KeyError):
+                    s.fail({'site': bname, 'input': 'KeyError raised by the caller inside %s' % bname, 'observed': repr(got), 'required': 'the KeyError leaves the block'})
+    s.exhaustive = True
+    return s
+
+
 def suite_reentrant(ctx):
     """the pending-response callback uses the client it belongs to (the documentation suggests sending TesterPresent from it): the request in flight goes on as if the
     callback had done nothing - harness/reentrant.py, metamorphic against a callback that only counts"""
@@ -153,4 +207,4 @@ def suite_reentrant(ctx):
     return reentrant.suite_reentrant(ctx)
 
 
-SUITES = [suite_call, suite_reentrant]
+SUITES = [suite_call, suite_reentrant, suite_blocks]
